@@ -18,6 +18,7 @@ import z3
 
 from . import source
 from .values import (
+    ExtObj,
     BAObj,
     Bound,
     Builtin,
@@ -917,6 +918,7 @@ class Path:
 
     # -- loops ---------------------------------------------------------------
     def loop_label(self, node):
+        node = getattr(node, '_orig_loop', node)
         f = self.func_stack[-1]
         labels = getattr(f, '_loop_labels', None)
         if labels is None:
@@ -989,6 +991,10 @@ class Path:
     def st_For(self, s):
         if s.orelse:
             raise Unsupported('for/else')
+        if isinstance(s.iter, ast.GeneratorExp):
+            lazy = self.lazy_genexp_for(s)
+            if lazy is not None:
+                return self.st_For(lazy)
         it = self.eval(s.iter)
         items = self.concrete_iter(it)
         if items is not None:
@@ -1002,6 +1008,8 @@ class Path:
                     continue
             return
         spec = self.cfg.loop_spec(self, self.func_stack[-1], self.loop_label(s))
+        if isinstance(it, Ref) and isinstance(self.obj(it), ExtObj):
+            return self.obj(it).ext_for(self, it, s, spec)
         if spec is None:
             raise Unsupported(f'for loop over symbolic iterable without invariant at {self.cur_loc}')
         fr = self.scope[0]
@@ -1058,6 +1066,47 @@ class Path:
         raise Unsupported(f'for over {it!r}')
 
     st_AsyncFor = st_For
+
+    def lazy_genexp_for(self, s):
+        """`for T in (elt for x in xs if c1 if c2)`: a generator expression is *lazy* -- its conditions and
+        element expression run interleaved with the loop body (they may await, raise, and read variables the
+        body assigns).  The statement is executed as the equivalent
+            for x' in xs:  if not c1': continue;  if not c2': continue;  T = elt';  body
+        where x' is the comprehension variable renamed apart (it is local to the generator's own scope).
+        Returns the synthetic For node (cached; it carries the loop label of the original statement), or None
+        when the shape is not handled (several `for` clauses, nested scopes rebinding names): the caller then
+        falls back to evaluating the generator expression as a value."""
+        cached = getattr(s, '_lazy_for', False)
+        if cached is not False:
+            return cached
+        ge = s.iter
+        out = None
+        if len(ge.generators) == 1 and not any(isinstance(x, (ast.Lambda, ast.ListComp, ast.SetComp, ast.DictComp, ast.GeneratorExp, ast.NamedExpr)) for c in [ge.elt] + list(ge.generators[0].ifs) for x in ast.walk(c)):
+            g = ge.generators[0]
+            bound = {x.id for x in ast.walk(g.target) if isinstance(x, ast.Name)}
+            ren = {n: f'_ge{s.lineno}_{n}' for n in bound}
+
+            class _Ren(ast.NodeTransformer):
+                def visit_Name(self, n):
+                    if n.id in ren:
+                        return ast.copy_location(ast.Name(ren[n.id], n.ctx), n)
+                    return n
+
+            import copy as _copy
+
+            def rn(n):
+                return ast.fix_missing_locations(_Ren().visit(_copy.deepcopy(n)))
+
+            body = []
+            for c in g.ifs:
+                body.append(ast.copy_location(ast.If(ast.UnaryOp(ast.Not(), rn(c)), [ast.copy_location(ast.Continue(), c)], []), c))
+            body.append(ast.copy_location(ast.Assign([s.target], rn(ge.elt)), s))
+            body.extend(s.body)
+            out = ast.copy_location(type(s)(rn(g.target), g.iter, body, [], None), s)
+            ast.fix_missing_locations(out)
+            out._orig_loop = s
+        s._lazy_for = out
+        return out
 
     def is_pos(self, v):
         if isinstance(v, int):
@@ -1688,6 +1737,8 @@ class Path:
                 return len(o.items) > 0
             if isinstance(o, MObj):
                 raise Unsupported('truth of symbolic map')
+            if isinstance(o, ExtObj):
+                return o.ext_truth(self, v)
             if isinstance(o, Obj):
                 from . import models
 
@@ -1718,6 +1769,8 @@ class Path:
                 return len(o.items) if o.items is not None else self.length(o.sym)
             if isinstance(o, DObj):
                 return len(o.items)
+            if isinstance(o, ExtObj):
+                return o.ext_len(self, v)
             if isinstance(o, Obj):
                 from . import models
 
